@@ -42,6 +42,9 @@ def one(mut, tier, with_tests):
         rc, out = sh([os.path.join(ROOT, "check"), mut["property"], "--tier", tier], cwd=ROOT,
                      env={"VERIF_REPO": wt, "VERIF_NO_EVIDENCE": "1", "VERIF_REPLAY_DIR": os.path.join(wt, ".verif_replays")})
         res["exit"] = rc
+        res["expect"] = mut.get("expect", "violation")      # "silent": the property still holds under this mutant (no alarm allowed)
+        res["as_expected"] = (rc == 1) if res["expect"] == "violation" else (rc == 0)
+        res["spec_deviation_lines"] = sum(1 for ln in out.splitlines() if ln.startswith("SPEC-DEVIATION"))
         res["violations"] = sum(1 for ln in out.splitlines() if ln.startswith("VIOLATION"))
         res["first"] = next((ln.strip()[:200] for ln in out.splitlines() if ln.startswith("  ")), "")
         if rc == 2:
